@@ -159,29 +159,37 @@ def par_map(fn: Callable[[Any], Acc], shards: Iterable[Any], acc: Acc, nworkers:
             acc.merge(fn(s))
         return True
     _SHARD_FN = fn
+    import concurrent.futures as cf
     ctx = multiprocessing.get_context('fork')
     done = 0
     complete = True
-    with ctx.Pool(min(n, len(shards))) as pool:
-        it = pool.imap_unordered(_run_shard, shards, chunksize=1)
-        while True:
-            try:
-                if deadline is not None:
-                    left = deadline - time.time()
-                    if left <= 0:
-                        raise multiprocessing.TimeoutError
-                    res = it.next(timeout=left)
-                else:
-                    res = it.next()
-            except StopIteration:
-                break
-            except multiprocessing.TimeoutError:
-                acc.caps.append(f'deadline hit after {done}/{len(shards)} shards')
-                complete = False
-                pool.terminate()
-                break
-            acc.merge(res)
-            done += 1
+    # ProcessPoolExecutor (unlike multiprocessing.Pool) notices a worker that died (e.g. OOM-killed):
+    # the run then fails loudly with BrokenProcessPool instead of hanging.
+    ex = cf.ProcessPoolExecutor(max_workers=min(n, len(shards)), mp_context=ctx)
+    try:
+        futs = [ex.submit(_run_shard, s) for s in shards]
+        pending = set(futs)
+        while pending:
+            timeout = None
+            if deadline is not None:
+                timeout = deadline - time.time()
+                if timeout <= 0:
+                    raise cf.TimeoutError
+            finished, pending = cf.wait(pending, timeout=timeout, return_when=cf.FIRST_COMPLETED)
+            if not finished:
+                raise cf.TimeoutError
+            for f in finished:
+                acc.merge(f.result())
+                done += 1
+    except cf.TimeoutError:
+        acc.caps.append(f'deadline hit after {done}/{len(shards)} shards')
+        complete = False
+        for f in futs:
+            f.cancel()
+        for proc in list(getattr(ex, '_processes', {}).values()):
+            proc.terminate()
+    finally:
+        ex.shutdown(wait=complete, cancel_futures=True)
     _SHARD_FN = None
     return complete
 
